@@ -1,3 +1,5 @@
+(* ([FSBdone], the last section of sync_background, is NOT counted: during the waiter's take-over it lies below the frames of the
+   sync_drain-style loop [FSDloop ..]) *)
 (* stack shape of callers: the script frame FTop (pool: FPIdle) is the bottom frame, and at most one operation-level frame of the
    operation in progress is on the stack (so a parked sync caller has no await frame below it, and vice versa) *)
 From stdpp Require Import list numbers option.
@@ -11,7 +13,7 @@ Fixpoint afterbot (st : list frame) : list frame := match st with [] => [] | fr 
 Definition opfr (fr : frame) : bool :=
   match fr with
   | FUse _ _ | FAwRet _ | FPark _ | FDropRet _ _ | FFS1 _
-  | FS1 _ _ | FClosure _ _ | FSIidle | FSDpush _ _ | FSDloop | FSDidle | FSBreg _ _ | FSBpush _ _ | FSBwait | FSBdone
+  | FS1 _ _ | FClosure _ _ | FSIidle | FSDpush _ _ | FSDloop | FSDidle | FSBreg _ _ | FSBpush _ _ | FSBwait | FSBclaim
   | FROdeq | FROpend _ | FROcheck _ | FROpark _ | FJob _ _ KRoj => true
   | _ => false
   end.
